@@ -85,7 +85,7 @@ Theorem recover_seqno_above cfg mode filters active sealed meta dirs pn ms :
   visible (d_trk d) = d_seqno d.
 Proof.
   intros J d. unfold d, recover.
-  destruct (fold_left (replay_batch cfg meta _) (concat sealed) _) as [sq1 kss1] eqn:R1.
+  destruct (fold_left (recover_sealed_one cfg meta _) sealed _) as [[sq1 kss1] sealed'] eqn:R1.
   destruct (fold_left (replay_batch cfg meta _) active (sq1, kss1)) as [sq2 kss2] eqn:R2.
   cbn [d_kss d_seqno d_trk]. rewrite J.
   set (sq := fold_left (fun acc k => match t_highest (k_tree k) with Some h => N.max acc (h + 1) | None => acc end) kss2 sq2).
